@@ -51,6 +51,9 @@ type World struct {
 	Hostile func(n *Node, args [][]byte) []byte
 	// ClusterDown makes every keyed command answer -CLUSTERDOWN.
 	ClusterDown bool
+	// AnnounceHost, if set, replaces the IP in the addresses the nodes announce (MOVED, ASK, CLUSTER NODES),
+	// e.g. "localhost": the proxy then knows backends under a name that differs from the peer address.
+	AnnounceHost string
 	// ListFailed lists failed old masters in CLUSTER NODES (flag master,fail, no slots), as Redis does.
 	ListFailed bool
 	// SlotlessAsSlave hides nothing; kept for clarity.
@@ -465,6 +468,9 @@ func (w *World) renderNodesLocked(self *Node) string {
 			link = "disconnected"
 		}
 		host, port, _ := net.SplitHostPort(n.Addr)
+		if w.AnnounceHost != "" {
+			host = w.AnnounceHost
+		}
 		p, _ := strconv.Atoi(port)
 		fmt.Fprintf(&b, "%s %s:%d@%d %s %s 0 %d %d %s", n.ID, host, p, p+10000, flags, master, 1500000000000+int64(w.Version), n.Idx+1, link)
 		if n.Master < 0 && !n.Failed {
@@ -757,7 +763,7 @@ func (n *Node) handle(nc *nodeConn, args [][]byte) (reply []byte, closeAfter boo
 		if to < 0 {
 			return finish(ref.ErrV("CLUSTERDOWN Hash slot not served"), "down")
 		}
-		return finish(ref.ErrV(fmt.Sprintf("MOVED %d %s", slot, w.Nodes[to].Addr)), "moved")
+		return finish(ref.ErrV(fmt.Sprintf("MOVED %d %s", slot, w.announced(w.Nodes[to].Addr))), "moved")
 	}
 	mg := w.mig[slot]
 	var ks *ref.Keyspace
@@ -775,7 +781,7 @@ func (n *Node) handle(nc *nodeConn, args [][]byte) (reply []byte, closeAfter boo
 		if mg != nil && mg.from == owner {
 			if _, ex := ks.M[string(key)]; !ex {
 				n.Ask++
-				return finish(ref.ErrV(fmt.Sprintf("ASK %d %s", slot, w.Nodes[mg.to].Addr)), "ask")
+				return finish(ref.ErrV(fmt.Sprintf("ASK %d %s", slot, w.announced(w.Nodes[mg.to].Addr))), "ask")
 			}
 		}
 	case mg != nil && mg.to == me && n.Master < 0 && asking:
@@ -931,4 +937,12 @@ func (w *World) AllAddrs() []string {
 // KillAfterLocked is KillAfter for callers that already hold the world lock (Hostile/Delay callbacks).
 func (n *Node) KillAfterLocked(k, midReply int, rst bool) {
 	n.killAfter, n.killMidReply, n.killRST = k, midReply, rst
+}
+
+func (w *World) announced(addr string) string {
+	if w.AnnounceHost == "" {
+		return addr
+	}
+	_, port, _ := net.SplitHostPort(addr)
+	return w.AnnounceHost + ":" + port
 }
